@@ -172,6 +172,30 @@ EXTRA = {
            "the stop, and SIGINT to passage::start with an exchange in flight.",
 }
 
+# added in round 6 of the seeded changes
+EXTRA6 = {
+    "C01": " Scripted services that failed stay down (every adapter error kind); every third behaviour runs right after a neighbour connection abandoned with output queued.",
+    "C02": " The harness records when each service ANSWERED; C02_VerdictRequired demands the answer before any grant (timed schedules with slow authentication and a verdict that differs from the claim).",
+    "C03": " One localization adapter for all cases of a configuration (both orders); configured messages that start like JSON values.",
+    "C04": " Out-of-range ordinals (negative, minimum, just above, far above) in each enumerated setting; every handshake address length 1..255.",
+    "C06": " Every handshake address length 1..255 (every first byte of the length prefix).",
+    "C07": " C07_WindowNotCutShort (timeout no earlier than P-1 s after its Keep Alive), C07_DueKeepAliveSentWhenWritable, write stalls that accept no byte at all.",
+    "C08": " A Login Acknowledged completed just before the next deadline, with routing that outlasts several more.",
+    "C09": " write_packet into a sink that takes a few bytes per call (the frame arrives whole, the reported length is its length).",
+    "C10": " Issued cookies of 1 KB .. 8 KB (padded profiles; 5093..5120 bytes among them) come back and are answered.",
+    "C11": " Shared secrets of 15 / 17 / 32 / 0 bytes at connection level; the server id from the environment on top of a file, empty and with surrounding whitespace.",
+    "C12": " Harmless prefixes of every length followed by URL syntax; a login right after one that was abandoned in mid-request on the same adapter.",
+    "C13": " Limiters that have been up for 24.9 / 49.7 / 149 days; clients that hang up after the status; an IPv6 address sharing its low 32 bits with an IPv4 one.",
+    "C14": " Secrets of 63 / 64 / 65 / 91 bytes and cookies signed under a secret that shares only the first 64 bytes.",
+    "C15": " A header that arrives a limiter window after the accept; a version 2 header naming DGRAM; early hang-ups; look-alike addresses.",
+    "C16": " The listener always runs on a runtime of its own; odd locales through the crate's built-in localization on a server without backends; 120,000 (thorough 400,000) distinct announced addresses.",
+    "C18": " in / not_in value lists in any order.",
+    "C19": " Every exchange in both orders on one adapter instance; a service that answers its first call UNAVAILABLE; requests of 5 MiB.",
+    "C20": " ERROR watch events other than 410 behind a change event in the same chunk (WNoise); all 7-step histories with a re-list that pruned an offered server (MC_AgonesDirected3.cfg); empty lists spelled null.",
+}
+for _k, _v in EXTRA6.items():
+    EXTRA[_k] = EXTRA.get(_k, "") + _v
+
 NOT_YET = {
     "C05": "check not built yet (Cipher.tla planned)", "C07": "check not built yet (ConnTimed.tla planned)",
     "C08": "check not built yet (Frames.tla planned)", "C09": "check not built yet (Wire.tla planned)",
